@@ -153,7 +153,7 @@ func (b *builder) variant(base gen.MsgSpec) (gen.MsgSpec, string) {
 				if c := strings.IndexByte(v, ','); c >= 0 && !strings.Contains(v[:c], "\"") {
 					first = v[:c]
 				}
-				if bi := strings.Index(first, ";branch="); bi >= 0 && !strings.Contains(first, "\"") {
+				if bi := strings.Index(first, ";branch"); bi >= 0 && !strings.Contains(first, "\"") {
 					ins := b.r.Pick([]string{";x=\"a,b\"", ";y=\"p;q\"", ";rport", ";ttl=1", ";z=\"\\\"\"", ";received=10.0.0.1", ";maddr=a.b-c_d", ";w=0123456789abcdef"})
 					m.Hdrs[i].Val = v[:bi] + ins + v[bi:]
 					what = append(what, "via-params")
